@@ -13,3 +13,14 @@ package namespace
 //@   trusted
 //@   pure
 //@   ensures result1 == nil ==> forall i in 0..len(result0) :: result0[i] != nil
+
+// ---- C11, run-time side: the relation lookup fails with a schema error only for a namespace
+// that is configured with relations none of which has the requested name; a declared relation
+// is found.
+//@ func ASTRelationFor
+//@   props C11 C13
+//@   requires m != nil
+//@   modifies nothing
+//@   ensures[C11] schema-error-only-if-undeclared: result1 != nil ==> ns != nil && len(ns.Relations) > 0 && relation != "" && (forall j in 0..len(ns.Relations) :: ns.Relations[j].Name != relation)
+//@   ensures[C11] found-is-the-declared-one: result0 != nil ==> result1 == nil && result0.Name == relation
+//@   loop 1 invariant ns != nil && (forall j in 0..$n :: ns.Relations[j].Name != relation)
